@@ -218,6 +218,7 @@ func invDepth(p *Parser) bool { return 0 <= p.depth && p.depth <= 64 }
 //@ loop 1 invariant [i] 0 <= i && i <= len(p.data) && invParser(p) && p.pos >= old(p.pos)
 
 //@ func (*Parser).parseItemType
+//@ paths split
 //@ requires invParser(p)
 //@ modifies p.data, p.pos
 //@ ensures [inv] invParser(p) && p.pos >= old(p.pos)
